@@ -103,6 +103,8 @@ func workerParse(args []string) {
 	}
 }
 
+var c04Slow bool // the retry pass: ten times the watchdog limit
+
 type parseCase struct {
 	id      string
 	cfg     int
@@ -148,6 +150,9 @@ func runParseWorker(cases []*parseCase) {
 		for done < len(pending) && !dead {
 			// watchdog proportional to the input length: 2 s + 1 ms per byte
 			limit := 2*time.Second + time.Duration(len(pending[done].input))*time.Millisecond
+			if c04Slow {
+				limit *= 10
+			}
 			select {
 			case l, ok := <-lines:
 				if !ok {
@@ -275,7 +280,7 @@ func c04Mutate(r *rand.Rand, s string) string {
 }
 
 func runC04(c *Ctx) {
-	c.rule = "byte strings up to 64 KiB: random bytes, token soups over the language alphabet (incl. comment openers, quotes, aliases, NUL, invalid UTF-8), mutations (delete/insert/duplicate/swap/truncate/random byte) of generated valid programs, unterminated strings/comments/quoted identifiers at end of input, deep nesting up to 30000, well-formed programs whose constant sub-expressions fail while being folded inside Parse (42 fault sources x 29 contexts) and programs whose callee/receiver/arguments the generator cannot compile (Generate error paths), x 9 configurations (value generator with and without comments and in map mode, the bool and the comfort-mode float example, four generic parsers incl. a unary operator that is the highest binary operator, prefix-overlapping multi-character operators, text operators); each input runs in a watchdog worker (2 s + 1 ms/byte); a panic, timeout or dead worker is a violation; non-trivial = distinct (configuration, input) with at least 3 bytes"
+	c.rule = "byte strings up to 64 KiB: random bytes, token soups over the language alphabet (incl. comment openers, quotes, aliases, NUL, invalid UTF-8), mutations (delete/insert/duplicate/swap/truncate/random byte) of generated valid programs, unterminated strings/comments/quoted identifiers at end of input, deep nesting up to 30000, well-formed programs whose constant sub-expressions fail while being folded inside Parse (42 fault sources x 29 contexts) and programs whose callee/receiver/arguments the generator cannot compile (Generate error paths), x 9 configurations (value generator with and without comments and in map mode, the bool and the comfort-mode float example, four generic parsers incl. a unary operator that is the highest binary operator, prefix-overlapping multi-character operators, text operators); each input runs in a watchdog worker (2 s + 1 ms/byte; a case on which it fires runs again alone with ten times that); a panic, timeout or dead worker is a violation; non-trivial = distinct (configuration, input) with at least 3 bytes"
 	c.assume = append(c.assume, "wall-clock linearity, Go stack growth on deep nesting and goroutine scheduling are runtime behaviour observed by the watchdog")
 	n := c.Pick(24000, 600000)
 	big := c.Pick(60, 800)
@@ -380,6 +385,28 @@ func runC04(c *Ctx) {
 		go func(p []*parseCase) { defer wg.Done(); runParseWorker(p) }(part)
 	}
 	wg.Wait()
+	// a watchdog that fired may only mean that the machine was busy: such a case runs again, alone, with ten times the limit
+	var again []*parseCase
+	for _, pc := range cases {
+		if pc.result == "TIMEOUT" {
+			pc.result = ""
+			again = append(again, pc)
+		}
+	}
+	confirmed := false // a retried case hung again: the remaining ones are hangs too, no need to wait for each of them
+	for _, pc := range again {
+		if confirmed {
+			pc.result = "TIMEOUT"
+			continue
+		}
+		c.Count("watchdog-retry")
+		c04Slow = true
+		runParseWorker([]*parseCase{pc})
+		c04Slow = false
+		if pc.result == "TIMEOUT" {
+			confirmed = true
+		}
+	}
 	cfgs := c04Configs()
 	maxRate := 0.0
 	for _, pc := range cases {
